@@ -974,7 +974,12 @@ func checkOperators(opsFile *ast.File, builtinFile *ast.File, maxText int64) (in
 		isXError(pow(xnum("10"), xnum(strconv.Itoa(half+1)))) && !isXError(pow(xnum("10"), xnum(strconv.Itoa(half)))) &&
 		isXError(pow(xnum("2"), xnum("99999999999"))) && isXError(pow(xnum("7"), xnum(strconv.Itoa(L+1)+".5"))) &&
 		!isXError(pow(xnum("1"), xnum("100000000000000000000"))) && !isXError(pow(xnum("-1"), xnum("100000000000000000001"))) &&
-		!isXError(pow(xnum("0"), xnum("100000000000000000000")))
+		!isXError(pow(xnum("0"), xnum("100000000000000000000"))) &&
+		// the sign of the base does not matter (|coefficient| > 1)
+		!isXError(pow(xnum("-2"), xnum(strconv.Itoa(L)))) && isXError(pow(xnum("-2"), xnum(strconv.Itoa(L+1)))) &&
+		isXError(pow(xnum("-10"), xnum(strconv.Itoa(half+1)))) && !isXError(pow(xnum("-10"), xnum(strconv.Itoa(half)))) &&
+		isXError(pow(xnum("-2"), xnum("-"+strconv.Itoa(L+1)))) && !isXError(pow(xnum("-2"), xnum("-"+strconv.Itoa(L)))) &&
+		isXError(pow(xnum("-7"), xnum("99999999999"))) && isXError(pow(xnum("-2.0"), xnum(strconv.Itoa(L+1))))
 	d64 := strings.Repeat("7", 64)
 	powFrac := !isXError(pow(xnum("1.5"), xnum("0.5"))) && !isXError(pow(xnum(d64), xnum("0.5"))) && isXError(pow(xnum(d64+"7"), xnum("0.5"))) &&
 		isXError(pow(xnum("2"), xnum("0."+d64[:33]))) && !isXError(pow(xnum("2"), xnum("0."+d64[:32]))) && !isXError(pow(xnum(d64+"7"), xnum("2"))) &&
